@@ -298,8 +298,18 @@ func runLeg(l leg, tier string, batch uint64, workers int, scratch string) (*leg
 		if v := os.Getenv("VERIF_THOROUGH_SECONDS"); v != "" {
 			fmt.Sscan(v, &seconds)
 		}
-	} else if v := os.Getenv("VERIF_QUICK_RUNS"); v != "" {
-		fmt.Sscan(v, &runs)
+	} else {
+		// the quick tier is a fixed list of run indices, cut short after a time box
+		// (the clock can only truncate the list, never change a run): code under
+		// test that is legitimately slower than the unchanged library must not
+		// turn the check into a watchdog case
+		seconds = 240
+		if v := os.Getenv("VERIF_QUICK_RUNS"); v != "" {
+			fmt.Sscan(v, &runs)
+		}
+		if v := os.Getenv("VERIF_QUICK_SECONDS"); v != "" {
+			fmt.Sscan(v, &seconds)
+		}
 	}
 	shards := workers
 	if info.ProcsPerWorker > 1 {
